@@ -12,6 +12,14 @@ TRUST = ('Trusted base: rustc nightly THIR/MIR for this source (same cfgs as the
          'the evidence file.')
 
 CHECKS = {
+    'C08': {
+        'technique': 'effect census of process_mode_channel keyed by mode letter; guard entailment per letter; effect/announcement pairing on the same path; writer/enforcer/renderer field agreement',
+        'level': ('Decides for every mode string that each channel-mode effect is guarded by the rank the statement assigns to '
+                  'its letter, applies only to members (rank letters), is tied to its own field and sign, is appended to the '
+                  'announcement with its stored parameter, that the announcement reaches all members, that missing privilege '
+                  'yields 482 / non-member 442, and that each written field is read by the enforcing handler and the MODE query.'),
+        'note': TRUST + ' Enforcement semantics of each field are decided in C07/C09/C10/C12.',
+    },
     'C09': {
         'technique': 'path-condition equivalence for the KICK selection, TOPIC write and INVITE record conditions; emission conditions per numeric; effect census; stale-fact (kill) rule for the KICK tail',
         'level': ('Decides that KICK selects exactly the victims the rank rules allow and removes/announces exactly those, that '
